@@ -393,13 +393,16 @@ def report(prop, a, api, results, t0, seed):
             functions.append({"target": unit, "kind": "custom", "obligations": nu, "discharged": nd,
                               "wall_s": round(r.get("wall_s", 0), 3)})
     # lock: every obligation label expected on the unchanged tree must still be generated
+    import re as _re
+    # labels are compared modulo source line numbers, so that an edit that only moves code does not trip the lock
+    labels = {u: sorted({_re.sub(r"@L\d+", "", l) for l in ls}) for u, ls in labels.items()}
     if a.update_lock:
         lock[prop] = labels
         json.dump(lock, open(lock_path, "w"), indent=0, sort_keys=True)
     elif prop in lock and not a.only:
         for unit, labs in lock[prop].items():
             have = set(labels.get(unit, []))
-            missing = [l for l in labs if l not in have]
+            missing = [l for l in {_re.sub(r"@L\d+", "", x) for x in labs} if l not in have]
             if unit not in labels and not any(u == unit for u, _ in undecided) and not any(u == unit for u, _ in crashes):
                 undecided.append((unit, "unit expected by obligations.lock.json produced nothing"))
             elif missing and not any(u == unit for u, _ in undecided):
